@@ -38,6 +38,18 @@ Qed.
 Lemma rsteps_trans k1 k2 c1 c2 c3 : rsteps k1 c1 c2 -> rsteps k2 c2 c3 -> rsteps (k1 + k2) c1 c3.
 Proof. induction 1; intros H2; simpl; [exact H2|]. econstructor; eauto. Qed.
 
+(* a reduction of the plain loop (Events.xstep) *)
+Definition plain_reduce (x : xconfig) : option xconfig :=
+  match m_act m (xc_state x) (t_sym (next_tok eoi (xc_input x))) (map t_sym (tl (xc_input x))) with
+  | Reduce _ => match xstep m (rp_evt p) (rp_fixws p) eoi x with XContinue x' => Some x' | XStop _ => None end
+  | _ => None
+  end.
+Fixpoint reduces_for (n : nat) (x : xconfig) : bool :=
+  match n with
+  | O => true
+  | S k => match plain_reduce x with Some x' => reduces_for k x' | None => false end
+  end.
+
 (* ---- one reduction of the main loop ---- *)
 Lemma rstep_reduce x r errs l rule :
   m_act m (xc_state x) (t_sym (next_tok eoi (xc_input x))) [] = Reduce rule ->
@@ -47,15 +59,16 @@ Lemma rstep_reduce x r errs l rule :
   let st := m_goto m below (m_rule_sym m rule) in
   st <> -1 ->
   exists e' evs, x_state e' = st /\
+    plain_reduce x = Some (mkXC (e' :: skipn ln (xc_stack x)) st (xc_input x) (xc_events x ++ evs)) /\
     rstep p eh (mkRC x r errs l) =
       RContinue (mkRC (mkXC (e' :: skipn ln (xc_stack x)) st (xc_input x) (xc_events x ++ evs)) r errs l).
 Proof.
-  intros Hact ln Hlen below st Hst. unfold rstep. cbn [rc_x rc_recovering rc_errors rc_last].
+  intros Hact ln Hlen below st Hst. unfold rstep, plain_reduce, xstep. cbn [rc_x rc_recovering rc_errors rc_last].
   rewrite Hnm, Hact. fold ln.
   destruct (length (xc_stack x) <=? ln)%nat eqn:El; [apply Nat.leb_le in El; lia|].
   destruct (lhs_range _ _) as [off endoff]. destruct (apply_rule _ _ _ _ _) as [evs endoff'].
   fold below. fold st. destruct (st =? -1) eqn:E1; [apply Z.eqb_eq in E1; contradiction|].
-  eexists _, evs. split; [|reflexivity]. reflexivity.
+  eexists _, evs. split; [|split]. 3: reflexivity. all: reflexivity.
 Qed.
 
 Lemma rstep_shift x r errs l q :
@@ -92,16 +105,17 @@ Lemma reduce_all_sim f : forall stack stack2 state symbol s',
   vstack (xc_stack x) stack stack2 -> stack2 <> [] -> hd 0 stack2 = state -> xc_state x = state ->
   t_sym (next_tok eoi (xc_input x)) = symbol ->
   exists k x', (k <= f)%nat /\ rsteps k (mkRC x r errs l) (mkRC x' r errs l) /\ xc_input x' = xc_input x /\
+    reduces_for k x = true /\
     (xc_state x' = rp_end p \/ exists q, m_act m (xc_state x') symbol [] = Shift q).
 Proof.
   induction f as [|f IH]; intros stack stack2 state symbol s' Hra x r errs l Hv Hne Hhd Hst Hsym; [discriminate|].
   simpl in Hra.
   destruct (state =? rp_end p) eqn:Eend.
-  { apply Z.eqb_eq in Eend. exists O, x. split; [lia|]. split; [constructor|]. split; [reflexivity|]. left. congruence. }
+  { apply Z.eqb_eq in Eend. exists O, x. split; [lia|]. split; [constructor|]. split; [reflexivity|]. split; [reflexivity|]. left. congruence. }
   destruct (state <? 0) eqn:Eneg; [discriminate|].
   destruct (rp_deep p state symbol); [discriminate|].
   destruct (m_act m state symbol []) as [q|rule| |row] eqn:Eact.
-  - injection Hra as _ Hok. exists O, x. split; [lia|]. split; [constructor|]. split; [reflexivity|].
+  - injection Hra as _ Hok. exists O, x. split; [lia|]. split; [constructor|]. split; [reflexivity|]. split; [reflexivity|].
     right. rewrite Hst. exists q. exact Eact.
   - (* one reduction, then the rest *)
     destruct Hv as (new & ES & Enew).
@@ -118,19 +132,21 @@ Proof.
       let below := match skipn ln (xc_stack x) with b :: _ => x_state b | [] => -1 end in
       reduce_all f p stack' (m_goto m below sym :: stack2') (m_goto m below sym) symbol = Some (s', true) ->
       exists k x', (k <= S f)%nat /\ rsteps k (mkRC x r errs l) (mkRC x' r errs l) /\ xc_input x' = xc_input x /\
+        reduces_for k x = true /\
         (xc_state x' = rp_end p \/ exists q, m_act m (xc_state x') symbol [] = Shift q)).
     { intros stack' stack2' Hlen (new' & Esk & Enew' & Hne') below Hrec.
       pose proof (reduce_all_state _ _ _ _ _ _ Hrec) as Hst1.
-      destruct (rstep_reduce x r errs l rule Hact Hlen Hst1) as (e' & evs & He' & Hstep).
-      fold ln in Hstep. fold below in Hstep, He'. fold sym in Hstep, He'.
+      destruct (rstep_reduce x r errs l rule Hact Hlen Hst1) as (e' & evs & He' & Hpr & Hstep).
+      fold ln in Hstep, Hpr. fold below in Hstep, He', Hpr. fold sym in Hstep, He', Hpr.
       set (x1 := mkXC (e' :: skipn ln (xc_stack x)) (m_goto m below sym) (xc_input x) (xc_events x ++ evs)) in *.
-      destruct (IH _ _ _ _ _ Hrec x1 r errs l) as (k & x' & Hk & Hsteps & Hin & Hfin).
+      destruct (IH _ _ _ _ _ Hrec x1 r errs l) as (k & x' & Hk & Hsteps & Hin & Hrf & Hfin).
       - exists (e' :: new'). split; [simpl; rewrite Esk; reflexivity|]. simpl. rewrite He', Enew'. reflexivity.
       - discriminate.
       - reflexivity.
       - reflexivity.
       - exact Hsym.
-      - exists (S k), x'. split; [lia|]. split; [econstructor; eauto|]. split; [exact Hin|exact Hfin]. }
+      - exists (S k), x'. split; [lia|]. split; [econstructor; eauto|]. split; [exact Hin|].
+        split; [simpl; rewrite Hpr; exact Hrf|exact Hfin]. }
     destruct ln as [|ln'] eqn:Eln.
     + (* empty rule: push *)
       apply (Hgo stack stack2).
@@ -217,7 +233,7 @@ Qed.
 Theorem recovery_progress c0 stack events c1 : handle_error p eh c0 stack events = RContinue c1 ->
   is_suffix (xc_input (rc_x c1)) (xc_input (rc_x c0)) /\
   exists k c2, (k <= S (length stack) * 4 + 64)%nat /\ rsteps k c1 c2 /\
-    xc_input (rc_x c2) = xc_input (rc_x c1) /\ rc_errors c2 = rc_errors c1 /\
+    xc_input (rc_x c2) = xc_input (rc_x c1) /\ rc_errors c2 = rc_errors c1 /\ reduces_for k (rc_x c1) = true /\
     (xc_state (rc_x c2) = rp_end p \/
      exists q c3, m_act m (xc_state (rc_x c2)) (t_sym (next_tok eoi (xc_input (rc_x c1)))) [] = Shift q /\
        rstep p eh c2 = RContinue c3 /\ xc_state (rc_x c3) = q /\ rc_errors c3 = rc_errors c1 /\
@@ -230,14 +246,14 @@ Proof.
   split; [exact Hsuf|].
   set (st0 := m_goto m (x_state (hd xdummy st)) (rp_err_sym p)) in *.
   set (x1 := mkXC stack' (x_state (hd xdummy stack')) input' events). subst stack'.
-  destruct (reduce_all_sim _ _ _ _ _ _ Hra x1 4 errs' last') as (k & x' & Hk & Hsteps & Hin & Hfin).
+  destruct (reduce_all_sim _ _ _ _ _ _ Hra x1 4 errs' last') as (k & x' & Hk & Hsteps & Hin & Hrf & Hfin).
   - exists [mkX (rp_err_sym p) s1 e1 st0 (TLeaf (rp_err_sym p) s1 e1)]. split; reflexivity.
   - discriminate.
   - reflexivity.
   - reflexivity.
   - reflexivity.
   - exists k, (mkRC x' 4 errs' last'). split; [exact Hk|]. split; [exact Hsteps|]. cbn [rc_x rc_errors].
-    split; [exact Hin|]. split; [reflexivity|].
+    split; [exact Hin|]. split; [reflexivity|]. split; [exact Hrf|].
     destruct Hfin as [Hfin|(q & Hq)]; [left; exact Hfin|right].
     assert (Hq' : m_act m (xc_state x') (t_sym (next_tok eoi (xc_input x'))) [] = Shift q) by (rewrite Hin; exact Hq).
     destruct (rstep_shift x' 4 errs' last' q Hq') as (e' & r' & Hstep).
@@ -246,17 +262,6 @@ Proof.
 Qed.
 
 (* ---- termination ---- *)
-(* a reduction of the plain loop (Events.xstep) *)
-Definition plain_reduce (x : xconfig) : option xconfig :=
-  match m_act m (xc_state x) (t_sym (next_tok eoi (xc_input x))) (map t_sym (tl (xc_input x))) with
-  | Reduce _ => match xstep m (rp_evt p) (rp_fixws p) eoi x with XContinue x' => Some x' | XStop _ => None end
-  | _ => None
-  end.
-Fixpoint reduces_for (n : nat) (x : xconfig) : bool :=
-  match n with
-  | O => true
-  | S k => match plain_reduce x with Some x' => reduces_for k x' | None => false end
-  end.
 (* no configuration starts an infinite sequence of reductions *)
 Definition reductions_terminate : Prop := forall x, exists n, reduces_for n x = false.
 (* end-of-input is only shifted into the end state *)
@@ -344,7 +349,7 @@ Proof.
     exists (S f). simpl. rewrite Eend', Hs. exact Hf.
   - apply (Hshift (mkRC x r errs l) q c1); auto.
   - destruct (handle_error p eh c0 stack events) as [c1|o c'] eqn:Ehe.
-    + destruct (recovery_progress _ _ _ _ Ehe) as (Hsuf & k2 & c2 & _ & Hsteps & Hin2 & _ & Hfin).
+    + destruct (recovery_progress _ _ _ _ Ehe) as (Hsuf & k2 & c2 & _ & Hsteps & Hin2 & _ & _ & Hfin).
       apply is_suffix_length in Hsuf. rewrite Hin in Hsuf.
       assert (Hgo : exists f2, fst (rrun_loop f2 p eh c2) <> RFuel).
       { destruct Hfin as [Hfin|(q & c3 & Hq & Hs3 & Hst3 & _ & Hin3)]; [exists 1%nat; apply accept_now; exact Hfin|].
@@ -363,6 +368,100 @@ Proof.
   destruct (_ =? rp_end p); [exact H|]. destruct (rstep p eh c) as [c1|o1 c1]; [apply IH; assumption|exact H].
 Qed.
 
+(* ---- an explicit fuel bound when the reduction sequences of the plain loop are uniformly bounded ---- *)
+Lemma reduces_for_mono n : forall x n', reduces_for n x = false -> (n <= n')%nat -> reduces_for n' x = false.
+Proof.
+  induction n as [|n IH]; intros x n' H Hle; [discriminate|]. destruct n' as [|n']; [lia|]. simpl in *.
+  destruct (plain_reduce x) as [x'|]; [apply IH; [exact H|lia]|reflexivity].
+Qed.
+
+Lemma reduces_for_lt k n x : reduces_for k x = true -> reduces_for n x = false -> (k < n)%nat.
+Proof.
+  intros Hk Hn. destruct (le_lt_dec n k) as [Hle|Hlt]; [|exact Hlt].
+  rewrite (reduces_for_mono n x k Hn Hle) in Hk. discriminate.
+Qed.
+
+Fixpoint fuelT (R T : nat) : nat := match T with O => R + 3 | S T' => 2 * R + 3 + fuelT R T' end.
+
+Lemma fuelT_ge R T : (R + 3 <= fuelT R T)%nat.
+Proof. induction T; simpl; lia. Qed.
+
+Lemma fuelT_mono R T : forall T', (T <= T')%nat -> (fuelT R T <= fuelT R T')%nat.
+Proof.
+  induction T as [|T IH]; intros T' H; [apply fuelT_ge|]. destruct T' as [|T']; [lia|]. simpl.
+  specialize (IH T' ltac:(lia)). lia.
+Qed.
+
+Lemma fuelT_closed R T : fuelT R T = (T * (2 * R + 3) + R + 3)%nat.
+Proof. induction T as [|T IH]; simpl; [lia|]. rewrite IH. lia. Qed.
+
+Definition reductions_bounded (R : nat) : Prop := forall x, reduces_for (S R) x = false.
+
+Theorem rrun_fuel_bound R : eoi_ends -> reductions_bounded R ->
+  forall c, exists f, (f <= S R + fuelT R (length (xc_input (rc_x c))))%nat /\ fst (rrun_loop f p eh c) <> RFuel.
+Proof.
+  intros Heoi Hred.
+  assert (G : forall n c, (length (xc_input (rc_x c)) <= n)%nat -> forall k, reduces_for k (rc_x c) = false ->
+              exists f, (f <= k + fuelT R n)%nat /\ fst (rrun_loop f p eh c) <> RFuel).
+  { induction n as [n IHn] using lt_wf_ind. intros c Hn.
+    assert (Hshift : forall c2 q c3, xc_state (rc_x c2) <> rp_end p ->
+       (length (xc_input (rc_x c2)) <= n)%nat ->
+       m_act m (xc_state (rc_x c2)) (t_sym (next_tok eoi (xc_input (rc_x c2)))) [] = Shift q ->
+       rstep p eh c2 = RContinue c3 -> xc_state (rc_x c3) = q ->
+       xc_input (rc_x c3) = (if t_sym (next_tok eoi (xc_input (rc_x c2))) =? 0 then xc_input (rc_x c2) else tl (xc_input (rc_x c2))) ->
+       exists f, (f + R + 1 <= fuelT R n)%nat /\ fst (rrun_loop f p eh c2) <> RFuel).
+    { intros c2 q c3 Hne2 Hlen2 Hq Hstep Hst3 Hin3. apply Z.eqb_neq in Hne2.
+      destruct (t_sym (next_tok eoi (xc_input (rc_x c2))) =? 0) eqn:E0.
+      - apply Z.eqb_eq in E0. rewrite E0 in Hq. apply Heoi in Hq. exists 2%nat.
+        split; [pose proof (fuelT_ge R n); lia|].
+        change (rrun_loop 2 p eh c2) with (if xc_state (rc_x c2) =? rp_end p then (RAccept, c2)
+          else match rstep p eh c2 with RContinue c' => rrun_loop 1 p eh c' | RStop o c' => (o, c') end).
+        rewrite Hne2, Hstep. apply accept_now. congruence.
+      - apply Z.eqb_neq in E0. pose proof (next_sym_nonzero_tl _ E0) as Hlt.
+        destruct n as [|n']; [lia|].
+        destruct (IHn n' ltac:(lia) c3 ltac:(rewrite Hin3; lia) (S R) (Hred _)) as (f & Hfb & Hf).
+        exists (S f). split; [simpl; lia|]. simpl. rewrite Hne2, Hstep. exact Hf. }
+    intros k. revert c Hn. induction k as [|k IHk]; intros c Hn Hk; [discriminate|].
+    pose proof (fuelT_ge R n) as Hge.
+    destruct (Z.eq_dec (xc_state (rc_x c)) (rp_end p)) as [Eend|Eend];
+      [exists 1%nat; split; [lia|apply accept_now; exact Eend]|].
+    pose proof Eend as Eend'. apply Z.eqb_neq in Eend'.
+    destruct c as [x r errs l]. cbn [rc_x] in *.
+    destruct (rstep_cases x r errs l) as [(o & c' & Hs)|[(x' & Hpr & Hin & Hs)|[(q & c1 & Hq & Hs & Hst & Hin)|(c0 & stack & events & Hs & Hin)]]];
+      cbv zeta in *.
+    - exists 1%nat. split; [lia|]. simpl. rewrite Eend', Hs. simpl. exact (rstep_stop _ _ _ Hs).
+    - simpl in Hk. rewrite Hpr in Hk.
+      destruct (IHk (mkRC x' r errs l) ltac:(cbn [rc_x]; rewrite Hin; exact Hn) Hk) as (f & Hfb & Hf).
+      exists (S f). split; [lia|]. simpl. rewrite Eend', Hs. exact Hf.
+    - destruct (Hshift (mkRC x r errs l) q c1) as (f & Hfb & Hf); auto. exists f. split; [lia|exact Hf].
+    - destruct (handle_error p eh c0 stack events) as [c1|o c'] eqn:Ehe.
+      + destruct (recovery_progress _ _ _ _ Ehe) as (Hsuf & k2 & c2 & _ & Hsteps & Hin2 & _ & Hrf & Hfin).
+        apply is_suffix_length in Hsuf. rewrite Hin in Hsuf.
+        pose proof (reduces_for_lt _ _ _ Hrf (Hred _)) as Hk2.
+        assert (Hgo : exists f2, (f2 + R + 1 <= fuelT R n)%nat /\ fst (rrun_loop f2 p eh c2) <> RFuel).
+        { destruct Hfin as [Hfin|(q & c3 & Hq & Hs3 & Hst3 & _ & Hin3)];
+            [exists 1%nat; split; [lia|apply accept_now; exact Hfin]|].
+          destruct (Z.eq_dec (xc_state (rc_x c2)) (rp_end p)) as [E2|E2];
+            [exists 1%nat; split; [lia|apply accept_now; exact E2]|].
+          apply (Hshift c2 q c3); auto; rewrite Hin2; auto. lia. }
+        destruct Hgo as (f2 & Hfb2 & Hf2). exists (S (k2 + f2)). split; [lia|]. simpl. rewrite Eend', Hs.
+        rewrite (rsteps_loop _ _ _ Hsteps). exact Hf2.
+      + exists 1%nat. split; [lia|]. simpl. rewrite Eend', Hs. simpl. exact (handle_error_stop _ _ _ _ _ Ehe). }
+  intros c. destruct (G _ c (le_n _) (S R) (Hred _)) as (f & Hfb & Hf). exists f. split; [exact Hfb|exact Hf].
+Qed.
+
+(* in closed form: (|input| + 1) * (2 R + 3) + R + 1 iterations suffice *)
+Corollary rrun_fuel_linear R : eoi_ends -> reductions_bounded R ->
+  forall c, fst (rrun_loop ((length (xc_input (rc_x c)) + 1) * (2 * R + 3) + R + 1) p eh c) <> RFuel.
+Proof.
+  intros Heoi Hred c. destruct (rrun_fuel_bound R Heoi Hred c) as (f & Hfb & Hf).
+  rewrite fuelT_closed in Hfb.
+  destruct (rrun_loop f p eh c) as [o c'] eqn:E. simpl in Hf.
+  replace ((length (xc_input (rc_x c)) + 1) * (2 * R + 3) + R + 1)%nat
+    with (f + ((length (xc_input (rc_x c)) + 1) * (2 * R + 3) + R + 1 - f))%nat by lia.
+  rewrite (rrun_fuel_mono f c o c' E Hf). exact Hf.
+Qed.
+
 (* every recovery episode consumes at least one input token or ends the parse *)
 Theorem recovery_consumes_or_ends : eoi_ends -> forall c0 stack events c1,
   handle_error p eh c0 stack events = RContinue c1 ->
@@ -372,7 +471,7 @@ Theorem recovery_consumes_or_ends : eoi_ends -> forall c0 stack events c1,
        ((length (xc_input (rc_x c3)) < length (xc_input (rc_x c0)))%nat \/ xc_state (rc_x c3) = rp_end p)).
 Proof.
   intros Heoi c0 stack events c1 H.
-  destruct (recovery_progress _ _ _ _ H) as (Hsuf & k & c2 & Hk & Hsteps & Hin2 & He2 & Hfin).
+  destruct (recovery_progress _ _ _ _ H) as (Hsuf & k & c2 & Hk & Hsteps & Hin2 & He2 & _ & Hfin).
   exists k, c2. split; [exact Hk|]. split; [exact Hsteps|]. split; [exact He2|].
   destruct Hfin as [Hfin|(q & c3 & Hq & Hs3 & Hst3 & He3 & Hin3)]; [left; exact Hfin|right].
   exists c3. split; [exact Hs3|]. split; [exact He3|].
